@@ -124,6 +124,11 @@ def gen(tier, rng):
                 out.append("run %s slice %s T oskipu8if %d" % (m, hx(enc), e))
                 out.append("run %s slice %s tv X skipu8if %d" % (m, hx(enc), e))
                 out.append("run %s slice %s T u8" % (m, hx(enc)))
+    # truncated encodings of this property's typed values (scripts.truncated_leaves)
+    import scripts as _scripts
+    for (_m, _d, _sc) in _scripts.truncated_leaves([0x02, 0x01, 0x05]):
+        for _src in ("slice", "stingy"):
+            out.append("run %s %s %s %s" % (_m, _src, hx(_d), _sc))
     return out
 
 def nontrivial(req, ans):
